@@ -224,20 +224,15 @@ pub fn fnv(data: &[u8]) -> u64 {
     h
 }
 
-/// `sink [TAG]`: reads stdin to EOF, records the bytes, prints "TAG len hash".
+/// `sink [TAG]`: reads stdin to EOF and records the bytes in the harness store; writes nothing.
 async fn sink_main<S: Sys>(env: &mut Env<S>, args: Vec<Field>) -> BResult {
     let tag = args.first().map(|f| f.value.clone()).unwrap_or_default();
     match read_all_stdin(env).await {
         Ok(data) => {
-            let text = format!("sink {} {} {:016x}\n", tag, data.len(), fnv(&data));
             SINKS.with(|s| s.borrow_mut().push(SinkEntry { pid: env.system.getpid().0, tag, data }));
-            out(env, &text).await
+            BResult::new(ExitStatus(0))
         }
-        Err(e) => {
-            let text = format!("sink {tag} error {e}\n");
-            let _ = out(env, &text).await;
-            BResult::new(ExitStatus(1))
-        }
+        Err(_) => BResult::new(ExitStatus(1)),
     }
 }
 
